@@ -28,6 +28,14 @@ PROPS = {
         'assumptions': ['acyclic dependency graphs (cycles deadlock); real interleavings inside sync primitives are sampled, not enumerated'],
         'rule': 'random acyclic programs (1-8 dependencies, 1-3 concurrent roots, 0-2 calls per body, parallel/serial/ctx forms, repeats, five outcome kinds, three function signatures) under a random gate-release schedule (5/6 gated, 1/6 free-running); distinct = different canonical (program, observed trace); trivial = trace of <= 3 events',
     },
+    'C10': {
+        'lean': ['MageModel.Props.C10', 'MageModel.Bridge.Invoke'],
+        'needs_mage': True,
+        'streams': [S('c10', 80, 1500)],
+        'trusted': ['go/build is the arbiter at run time; the Lean evaluator (Invoke/Select.lean) was written from its rules and is diffed against it', 'go/build\'s header scanner (which comment lines count as constraints)', 'the generator\'s rendering of an expression tree as //go:build or +build text'],
+        'assumptions': ['files importing "C", //go:binary-only-package and the package name "documentation" are outside the generator', 'file names are unique within a directory'],
+        'rule': 'generated directories of 1-8 files from 26 name shapes (platform suffixes in every position, _test, hidden, non-Go, dotted stems), constraints = random boolean expressions of depth <= 3 over 15 tags in //go:build syntax, legacy +build lines (1-2 lines, OR/AND/negation), both, or none, optional leading comment block, occasional foreign package clauses; 4 queries per directory over -goos x -goarch (7 x 5) x GOOS/GOARCH in the harness environment (5 x 4) x magefiles-directory mode; process ring: mage -l started with GOOS/GOARCH in its environment over plain and magefiles-directory layouts; distinct = different canonical oracle input; trivial = nothing selected from a one-file directory',
+    },
     'C11': {
         'lean': ['MageModel.Props.C11', 'MageModel.Bridge.Invoke'],
         'needs_mage': True,
